@@ -10,7 +10,7 @@
    The Rust operates on &str (valid UTF-8 by construction).  The model is total on all byte lists
    and works byte-wise; the comments say why each byte-wise rule coincides with the char-wise Rust
    on valid UTF-8. *)
-From PasfmtVerif Require Export Model.Token.
+From PasfmtVerif Require Export Model.Token Gen.LexerTables.
 From Coq Require Import Arith.
 
 (* ------------------------------------------------------------------ *)
@@ -81,130 +81,8 @@ Definition count_full_decimal (l : bytes) : nat :=
 (* ------------------------------------------------------------------ *)
 (* keywords *)
 
-Definition KEYWORDS_table : list (bytes * RawTokenType) := [
-    (* absolute *) ([97; 98; 115; 111; 108; 117; 116; 101], RTT_IdentifierOrKeyword KK_Absolute);
-    (* abstract *) ([97; 98; 115; 116; 114; 97; 99; 116], RTT_IdentifierOrKeyword KK_Abstract);
-    (* align *) ([97; 108; 105; 103; 110], RTT_IdentifierOrKeyword KK_Align);
-    (* and *) ([97; 110; 100], RTT_Keyword KK_And);
-    (* array *) ([97; 114; 114; 97; 121], RTT_Keyword KK_Array);
-    (* as *) ([97; 115], RTT_Keyword KK_As);
-    (* asm *) ([97; 115; 109], RTT_Keyword KK_Asm);
-    (* assembler *) ([97; 115; 115; 101; 109; 98; 108; 101; 114], RTT_IdentifierOrKeyword KK_Assembler);
-    (* at *) ([97; 116], RTT_IdentifierOrKeyword KK_At);
-    (* automated *) ([97; 117; 116; 111; 109; 97; 116; 101; 100], RTT_IdentifierOrKeyword KK_Automated);
-    (* begin *) ([98; 101; 103; 105; 110], RTT_Keyword KK_Begin);
-    (* case *) ([99; 97; 115; 101], RTT_Keyword KK_Case);
-    (* cdecl *) ([99; 100; 101; 99; 108], RTT_IdentifierOrKeyword KK_Cdecl);
-    (* class *) ([99; 108; 97; 115; 115], RTT_Keyword KK_Class);
-    (* const *) ([99; 111; 110; 115; 116], RTT_Keyword (KK_Const DK_Other));
-    (* constructor *) ([99; 111; 110; 115; 116; 114; 117; 99; 116; 111; 114], RTT_Keyword KK_Constructor);
-    (* contains *) ([99; 111; 110; 116; 97; 105; 110; 115], RTT_IdentifierOrKeyword KK_Contains);
-    (* default *) ([100; 101; 102; 97; 117; 108; 116], RTT_IdentifierOrKeyword KK_Default);
-    (* delayed *) ([100; 101; 108; 97; 121; 101; 100], RTT_IdentifierOrKeyword KK_Delayed);
-    (* deprecated *) ([100; 101; 112; 114; 101; 99; 97; 116; 101; 100], RTT_IdentifierOrKeyword KK_Deprecated);
-    (* destructor *) ([100; 101; 115; 116; 114; 117; 99; 116; 111; 114], RTT_Keyword KK_Destructor);
-    (* dispid *) ([100; 105; 115; 112; 105; 100], RTT_IdentifierOrKeyword KK_DispId);
-    (* dispinterface *) ([100; 105; 115; 112; 105; 110; 116; 101; 114; 102; 97; 99; 101], RTT_Keyword KK_DispInterface);
-    (* div *) ([100; 105; 118], RTT_Keyword KK_Div);
-    (* do *) ([100; 111], RTT_Keyword KK_Do);
-    (* downto *) ([100; 111; 119; 110; 116; 111], RTT_Keyword KK_Downto);
-    (* dynamic *) ([100; 121; 110; 97; 109; 105; 99], RTT_IdentifierOrKeyword KK_Dynamic);
-    (* else *) ([101; 108; 115; 101], RTT_Keyword KK_Else);
-    (* end *) ([101; 110; 100], RTT_Keyword KK_End);
-    (* except *) ([101; 120; 99; 101; 112; 116], RTT_Keyword KK_Except);
-    (* experimental *) ([101; 120; 112; 101; 114; 105; 109; 101; 110; 116; 97; 108], RTT_IdentifierOrKeyword KK_Experimental);
-    (* export *) ([101; 120; 112; 111; 114; 116], RTT_IdentifierOrKeyword KK_Export);
-    (* exports *) ([101; 120; 112; 111; 114; 116; 115], RTT_Keyword KK_Exports);
-    (* external *) ([101; 120; 116; 101; 114; 110; 97; 108], RTT_IdentifierOrKeyword KK_External);
-    (* far *) ([102; 97; 114], RTT_IdentifierOrKeyword KK_Far);
-    (* file *) ([102; 105; 108; 101], RTT_Keyword KK_File);
-    (* final *) ([102; 105; 110; 97; 108], RTT_IdentifierOrKeyword KK_Final);
-    (* finalization *) ([102; 105; 110; 97; 108; 105; 122; 97; 116; 105; 111; 110], RTT_Keyword KK_Finalization);
-    (* finally *) ([102; 105; 110; 97; 108; 108; 121], RTT_Keyword KK_Finally);
-    (* for *) ([102; 111; 114], RTT_Keyword KK_For);
-    (* forward *) ([102; 111; 114; 119; 97; 114; 100], RTT_IdentifierOrKeyword KK_Forward);
-    (* function *) ([102; 117; 110; 99; 116; 105; 111; 110], RTT_Keyword KK_Function);
-    (* goto *) ([103; 111; 116; 111], RTT_Keyword KK_Goto);
-    (* helper *) ([104; 101; 108; 112; 101; 114], RTT_IdentifierOrKeyword KK_Helper);
-    (* if *) ([105; 102], RTT_Keyword KK_If);
-    (* implementation *) ([105; 109; 112; 108; 101; 109; 101; 110; 116; 97; 116; 105; 111; 110], RTT_Keyword KK_Implementation);
-    (* implements *) ([105; 109; 112; 108; 101; 109; 101; 110; 116; 115], RTT_IdentifierOrKeyword KK_Implements);
-    (* in *) ([105; 110], RTT_Keyword (KK_In IK_Op));
-    (* index *) ([105; 110; 100; 101; 120], RTT_IdentifierOrKeyword KK_Index);
-    (* inherited *) ([105; 110; 104; 101; 114; 105; 116; 101; 100], RTT_Keyword KK_Inherited);
-    (* initialization *) ([105; 110; 105; 116; 105; 97; 108; 105; 122; 97; 116; 105; 111; 110], RTT_Keyword KK_Initialization);
-    (* inline *) ([105; 110; 108; 105; 110; 101], RTT_Keyword KK_Inline);
-    (* interface *) ([105; 110; 116; 101; 114; 102; 97; 99; 101], RTT_Keyword KK_Interface);
-    (* is *) ([105; 115], RTT_Keyword KK_Is);
-    (* label *) ([108; 97; 98; 101; 108], RTT_Keyword KK_Label);
-    (* library *) ([108; 105; 98; 114; 97; 114; 121], RTT_Keyword KK_Library);
-    (* local *) ([108; 111; 99; 97; 108], RTT_IdentifierOrKeyword KK_Local);
-    (* message *) ([109; 101; 115; 115; 97; 103; 101], RTT_IdentifierOrKeyword KK_Message);
-    (* mod *) ([109; 111; 100], RTT_Keyword KK_Mod);
-    (* name *) ([110; 97; 109; 101], RTT_IdentifierOrKeyword KK_Name);
-    (* near *) ([110; 101; 97; 114], RTT_IdentifierOrKeyword KK_Near);
-    (* nil *) ([110; 105; 108], RTT_Keyword KK_Nil);
-    (* nodefault *) ([110; 111; 100; 101; 102; 97; 117; 108; 116], RTT_IdentifierOrKeyword KK_NoDefault);
-    (* not *) ([110; 111; 116], RTT_Keyword KK_Not);
-    (* object *) ([111; 98; 106; 101; 99; 116], RTT_Keyword KK_Object);
-    (* of *) ([111; 102], RTT_Keyword KK_Of);
-    (* on *) ([111; 110], RTT_IdentifierOrKeyword KK_On);
-    (* operator *) ([111; 112; 101; 114; 97; 116; 111; 114], RTT_IdentifierOrKeyword KK_Operator);
-    (* or *) ([111; 114], RTT_Keyword KK_Or);
-    (* out *) ([111; 117; 116], RTT_IdentifierOrKeyword KK_Out);
-    (* overload *) ([111; 118; 101; 114; 108; 111; 97; 100], RTT_IdentifierOrKeyword KK_Overload);
-    (* override *) ([111; 118; 101; 114; 114; 105; 100; 101], RTT_IdentifierOrKeyword KK_Override);
-    (* package *) ([112; 97; 99; 107; 97; 103; 101], RTT_IdentifierOrKeyword KK_Package);
-    (* packed *) ([112; 97; 99; 107; 101; 100], RTT_Keyword KK_Packed);
-    (* pascal *) ([112; 97; 115; 99; 97; 108], RTT_IdentifierOrKeyword KK_Pascal);
-    (* platform *) ([112; 108; 97; 116; 102; 111; 114; 109], RTT_IdentifierOrKeyword KK_Platform);
-    (* private *) ([112; 114; 105; 118; 97; 116; 101], RTT_IdentifierOrKeyword KK_Private);
-    (* procedure *) ([112; 114; 111; 99; 101; 100; 117; 114; 101], RTT_Keyword KK_Procedure);
-    (* program *) ([112; 114; 111; 103; 114; 97; 109], RTT_Keyword KK_Program);
-    (* property *) ([112; 114; 111; 112; 101; 114; 116; 121], RTT_Keyword KK_Property);
-    (* protected *) ([112; 114; 111; 116; 101; 99; 116; 101; 100], RTT_IdentifierOrKeyword KK_Protected);
-    (* public *) ([112; 117; 98; 108; 105; 99], RTT_IdentifierOrKeyword KK_Public);
-    (* published *) ([112; 117; 98; 108; 105; 115; 104; 101; 100], RTT_IdentifierOrKeyword KK_Published);
-    (* raise *) ([114; 97; 105; 115; 101], RTT_Keyword KK_Raise);
-    (* read *) ([114; 101; 97; 100], RTT_IdentifierOrKeyword KK_Read);
-    (* readonly *) ([114; 101; 97; 100; 111; 110; 108; 121], RTT_IdentifierOrKeyword KK_ReadOnly);
-    (* record *) ([114; 101; 99; 111; 114; 100], RTT_Keyword KK_Record);
-    (* reference *) ([114; 101; 102; 101; 114; 101; 110; 99; 101], RTT_IdentifierOrKeyword KK_Reference);
-    (* register *) ([114; 101; 103; 105; 115; 116; 101; 114], RTT_IdentifierOrKeyword KK_Register);
-    (* reintroduce *) ([114; 101; 105; 110; 116; 114; 111; 100; 117; 99; 101], RTT_IdentifierOrKeyword KK_Reintroduce);
-    (* repeat *) ([114; 101; 112; 101; 97; 116], RTT_Keyword KK_Repeat);
-    (* requires *) ([114; 101; 113; 117; 105; 114; 101; 115], RTT_IdentifierOrKeyword KK_Requires);
-    (* resident *) ([114; 101; 115; 105; 100; 101; 110; 116], RTT_IdentifierOrKeyword KK_Resident);
-    (* resourcestring *) ([114; 101; 115; 111; 117; 114; 99; 101; 115; 116; 114; 105; 110; 103], RTT_Keyword KK_ResourceString);
-    (* safecall *) ([115; 97; 102; 101; 99; 97; 108; 108], RTT_IdentifierOrKeyword KK_SafeCall);
-    (* sealed *) ([115; 101; 97; 108; 101; 100], RTT_IdentifierOrKeyword KK_Sealed);
-    (* set *) ([115; 101; 116], RTT_Keyword KK_Set);
-    (* shl *) ([115; 104; 108], RTT_Keyword KK_Shl);
-    (* shr *) ([115; 104; 114], RTT_Keyword KK_Shr);
-    (* static *) ([115; 116; 97; 116; 105; 99], RTT_IdentifierOrKeyword KK_Static);
-    (* stdcall *) ([115; 116; 100; 99; 97; 108; 108], RTT_IdentifierOrKeyword KK_StdCall);
-    (* stored *) ([115; 116; 111; 114; 101; 100], RTT_IdentifierOrKeyword KK_Stored);
-    (* strict *) ([115; 116; 114; 105; 99; 116], RTT_IdentifierOrKeyword KK_Strict);
-    (* string *) ([115; 116; 114; 105; 110; 103], RTT_Keyword KK_String);
-    (* then *) ([116; 104; 101; 110], RTT_Keyword KK_Then);
-    (* threadvar *) ([116; 104; 114; 101; 97; 100; 118; 97; 114], RTT_Keyword KK_ThreadVar);
-    (* to *) ([116; 111], RTT_Keyword KK_To);
-    (* try *) ([116; 114; 121], RTT_Keyword KK_Try);
-    (* type *) ([116; 121; 112; 101], RTT_Keyword KK_Type);
-    (* unit *) ([117; 110; 105; 116], RTT_Keyword KK_Unit);
-    (* unsafe *) ([117; 110; 115; 97; 102; 101], RTT_IdentifierOrKeyword KK_Unsafe);
-    (* until *) ([117; 110; 116; 105; 108], RTT_Keyword KK_Until);
-    (* uses *) ([117; 115; 101; 115], RTT_Keyword KK_Uses);
-    (* var *) ([118; 97; 114], RTT_Keyword (KK_Var DK_Other));
-    (* varargs *) ([118; 97; 114; 97; 114; 103; 115], RTT_IdentifierOrKeyword KK_VarArgs);
-    (* virtual *) ([118; 105; 114; 116; 117; 97; 108], RTT_IdentifierOrKeyword KK_Virtual);
-    (* while *) ([119; 104; 105; 108; 101], RTT_Keyword KK_While);
-    (* winapi *) ([119; 105; 110; 97; 112; 105], RTT_IdentifierOrKeyword KK_WinApi);
-    (* with *) ([119; 105; 116; 104], RTT_Keyword KK_With);
-    (* write *) ([119; 114; 105; 116; 101], RTT_IdentifierOrKeyword KK_Write);
-    (* writeonly *) ([119; 114; 105; 116; 101; 111; 110; 108; 121], RTT_IdentifierOrKeyword KK_WriteOnly);
-    (* xor *) ([120; 111; 114], RTT_Keyword KK_Xor)
-].
+(* regenerated from core/src/defaults/lexer.rs on every run (gen/rs2v_tables.py) *)
+Definition KEYWORDS_table : list (bytes * RawTokenType) := KEYWORDS_gen.
 
 (* eq_ignore_ascii_case against a lower-case ASCII constant *)
 Definition eq_ignore_case (w kw : bytes) : bool := bytes_eqb (lower w) kw.
@@ -225,24 +103,7 @@ Definition get_word_token_type (w : bytes) : RawTokenType := keyword_lookup KEYW
 (* get_word_token_type as written in the Rust: gperf perfect hash + one comparison.
    Proofs/LexerProofs.v (get_word_token_type_hash_eq) shows it equals get_word_token_type. *)
 
-Definition KEYWORD_ASSO_VALUES : list N := [
-    244; 244; 244; 244; 244; 244; 244; 244; 244; 244; 244; 244; 244; 244; 244; 244;
-    244; 244; 244; 244; 244; 244; 244; 244; 244; 244; 244; 244; 244; 244; 244; 244;
-    244; 244; 244; 244; 244; 244; 244; 244; 244; 244; 244; 244; 244; 244; 244; 244;
-    244; 244; 244; 244; 244; 244; 244; 244; 244; 244; 244; 244; 244; 244; 244; 244;
-    244; 29; 76; 45; 8; 6; 31; 142; 82; 18; 9; 244; 41; 49; 14; 8;
-    64; 8; 6; 6; 5; 47; 91; 119; 83; 74; 244; 244; 244; 244; 244; 244;
-    244; 29; 76; 45; 8; 6; 31; 142; 82; 18; 9; 244; 41; 49; 14; 8;
-    64; 8; 6; 6; 5; 47; 91; 119; 83; 74; 244; 244; 244; 244; 244; 244;
-    244; 244; 244; 244; 244; 244; 244; 244; 244; 244; 244; 244; 244; 244; 244; 244;
-    244; 244; 244; 244; 244; 244; 244; 244; 244; 244; 244; 244; 244; 244; 244; 244;
-    244; 244; 244; 244; 244; 244; 244; 244; 244; 244; 244; 244; 244; 244; 244; 244;
-    244; 244; 244; 244; 244; 244; 244; 244; 244; 244; 244; 244; 244; 244; 244; 244;
-    244; 244; 244; 244; 244; 244; 244; 244; 244; 244; 244; 244; 244; 244; 244; 244;
-    244; 244; 244; 244; 244; 244; 244; 244; 244; 244; 244; 244; 244; 244; 244; 244;
-    244; 244; 244; 244; 244; 244; 244; 244; 244; 244; 244; 244; 244; 244; 244; 244;
-    244; 244; 244; 244; 244; 244; 244; 244; 244; 244; 244; 244; 244; 244; 244; 244
-].
+Definition KEYWORD_ASSO_VALUES : list N := KEYWORD_ASSO_VALUES_gen.
 
 Definition asso (b : byte) : N := nth (N.to_nat b) KEYWORD_ASSO_VALUES 244.
 
